@@ -46,4 +46,21 @@ TEXT.update({
          "note": TS + " The surface `for` syntax is exercised by the surface backend (C14)."},
 })
 
+TN = ("Trusted: TLC, CommunityModules Json/IOUtils, the brute-force meaning of goals and stores in Store.tla (SatGoal, SatStore), "
+      "the Rust projectors. Bounded: integer windows, numbers of variables/constraints (constants in the evidence file).")
+TEXT.update({
+ "C16": {"ref": "DESIGN 5 C16", "technique": "TLA+ propagator specifications model-checked for soundness and exact labelling against brute-force solutions; TLC-enumerated posting orders and random programs (forced constraint schedules) replayed and judged by TLC",
+         "level": "The FD part of Store.tla (process_domain, the nine propagators, process_extension_fd, labelling) is model-checked on every posting order of the MC_FD scope under several schedule indices: propagation never loses a solution, failure is never wrong, labelling returns exactly the brute-force solutions. Each behaviour is executed on the real code step by step and as a query; TLC checks that every answer assigns domain values satisfying all posted constraints (answer is a member of the specification's solution set).",
+         "note": TN},
+ "C17": {"ref": "DESIGN 5 C17", "technique": "same machinery as C16; completeness and multiplicity: answer multiset equals the brute-force solution set, per-step 'no solution lost' on recorded stores",
+         "level": "Same scope as C16. TLC compares the multiset of recorded answers with the specification's labelled solutions (each exactly once) and, on the step-by-step runs, checks at every recorded store that no brute-force solution of the goals posted so far has been removed and that every failure is justified.",
+         "note": TN},
+ "C18": {"ref": "DESIGN 5 C18", "technique": "set-meaning specification of every FiniteDomain operation; TLC's state graph over a domain family becomes one implementation test per transition, judged by TLC",
+         "level": "FDom.tla gives each operation its set meaning (checked for the algebraic laws by TLC); every domain of the family (intervals, sorted sparse lists, unsorted/duplicated vectors through From<Vec>) under every operation/operand/threshold is executed on the real FiniteDomain (identity and isize::MIN/MAX embeddings) and each result is compared by TLC.",
+         "note": TN + " Extreme bounds only for operations that do not enumerate an interval."},
+ "C19": {"ref": "DESIGN 5 C19", "technique": "TLA+ specification of plusz/timesz model-checked for exact denotation and 'decidable constraints are decided'; step-by-step trace validation on State and answer comparison",
+         "level": "Every operand pattern (aliasing, zeros, non-divisible products) in every order with bindings is model-checked: the store denotes exactly the integer solutions and no stored constraint could already be decided. The same behaviours run on the real code; TLC compares success flag, substitution and the set of suspended constraints at every step, answers of the query form, and rejects panics.",
+         "note": TN},
+})
+
 NOT_APPLICABLE = {}
